@@ -204,6 +204,8 @@ def scope_facts(prog):
             m = re.search(r'= &\((_\d+)\.(\d+): std::vec::Vec<ast::Import>\)', d[1]) if d and d[0] == '=' else None
             return (m.group(1), int(m.group(2))) if m else None
         ai, ad = mir._split_top(ci[0][1]), mir._split_top(cd[0][1])
+        if ast_i is None:
+            continue
         if field_of(ai[0]) != (ast_i, fi):
             bad.append('check_imports does not receive the file\'s own imports')
         if field_of(ad[0]) != (ast_i, fd):
